@@ -1,3 +1,4 @@
 pub mod choice;
 pub mod known;
+pub mod store;
 pub mod sx;
